@@ -1,4 +1,5 @@
 import Flatland.TreeJson
+import Flatland.Run.C08
 open Lean Flatland.J
 namespace Flatland.Run.C09
 open Flatland.Tree Flatland.C08 Flatland.TreeJson
@@ -17,6 +18,7 @@ def view (s : St) (_r : Option StepObs) : Json :=
        ("len", ofNat s.root.kids.length)]
 
 def run (j : Json) : Except String Json := do
+  if Flatland.Run.C08.usesFailurePaths j then return obj [("unsupported", Json.bool true)]
   runCase (← parseCase j) view
 
 end Flatland.Run.C09
